@@ -14,7 +14,10 @@ import (
 )
 
 const (
-	KeysIndexSep       = "_"
+	// KeysIndexSep joins path elements to index keys. Path elements include list key values, which are
+	// arbitrary YANG strings. NUL is the separator because it is not a valid character of a YANG string
+	// (RFC 7950 9.4), any printable separator makes different paths collide ("a_b","c" vs. "a","b_c").
+	KeysIndexSep       = "\x00"
 	DefaultValuesPrio  = int32(math.MaxInt32 - 90)
 	DefaultsIntentName = "default"
 	RunningValuesPrio  = int32(math.MaxInt32 - 100)
